@@ -20,6 +20,12 @@ func ConcreteReplay(p *Program, entry *ssa.Function, cfg Config, v Violation) (b
 	}
 	defer sol.Close()
 	cfg.Known = nil
+	if cfg.MaxSteps <= 0 {
+		cfg.MaxSteps = 2000000
+	}
+	if cfg.MaxDecisions <= 0 {
+		cfg.MaxDecisions = 2000
+	}
 	cfg.KeepScripts = 0
 	res := newResult(cfg.Entry)
 	var prefix []decision
